@@ -85,8 +85,10 @@ Front1(s) == SubSeq(s, 1, Len(s) - 1)
 ParamWords == IF RICHREQ THEN {<<"b", "b">>, <<"a">>} ELSE {<<"b", "b">>}
 Insts(ap) == LET rts == AllPats(ap) \cup {mt.prefix : mt \in AllMounts(ap)} IN {InstWith(r, w) : r \in rts, w \in ParamWords}
 NearMisses(ap) == (UNION {{Append(p, <<"a">>)} \cup (IF p = <<>> THEN {} ELSE {Front1(p)}) : p \in Insts(ap)} \cup {<<<<"b", "b">>, <<"a">>>>}) \ Insts(ap)
-PfMethods == IF RICHREQ THEN <<"GET", "POST", "PUT", "DELETE", "HEAD", "OPTIONS", "FOO", "PATCH", "get">>
-                        ELSE <<"GET", "POST", "PUT", "DELETE", "HEAD", "OPTIONS", "FOO">>
+\* (besides method names: words that are no method but are pieces of the names or of a list of them -- `PU`, `ET`, `GET, PUT` --
+\*  which a textual test against the advertised list would let through)
+PfMethods == IF RICHREQ THEN <<"GET", "POST", "PUT", "DELETE", "HEAD", "OPTIONS", "FOO", "PATCH", "get", "PU", "ET", "GET, PUT", "HEA", ",", "OPTION">>
+                        ELSE <<"GET", "POST", "PUT", "DELETE", "HEAD", "OPTIONS", "FOO", "PU", "ET", "GET, PUT">>
 SimpleMethods == <<"GET", "POST", "PUT", "DELETE", "HEAD", "OPTIONS">>
 AcrhSeq   == <<Unset, Lst(<<"h1">>), Lst(<<"h2", "h4">>)>>
 OriginSeq == <<"o1", "none", "o3">>
